@@ -177,8 +177,9 @@ def run(ctx):
         for b, bb, what in classes.get(cls, []):
             t = b.term(bb)
             if cls == 'clock-real':
-                if b.nid in CLOCK_EXEMPT:
-                    r2.exempted(b.nid, CLOCK_EXEMPT[b.nid])
+                exk = b.nid if b.nid in CLOCK_EXEMPT else (b.nid.split('::{closure')[0] + '::{closure#0}')
+                if exk in CLOCK_EXEMPT:
+                    r2.exempted(b.nid, CLOCK_EXEMPT[exk])
                     continue
                 perms = CLASS_PERMS['clock']
             elif cls == 'regex':
@@ -187,7 +188,7 @@ def run(ctx):
                     r2.exempted(b.nid, 'regex compiled from a compile-time literal inside lazy_static')
                     continue
                 perms = CLASS_PERMS['regex']
-            elif cls == 'clock' and b.nid in CLOCK_EXEMPT:
+            elif cls == 'clock' and (b.nid in CLOCK_EXEMPT or (b.nid.split('::{closure')[0] + '::{closure#0}') in CLOCK_EXEMPT):
                 continue
             else:
                 perms = CLASS_PERMS[cls]
